@@ -89,6 +89,7 @@ type c18Clock struct {
 	jitter float64 // 0 <= jitter < 1
 	ticks  []*c18Ticker
 	loops  int // how often the refresh goroutine has (re-)entered its select
+	ended  bool // the refresh goroutine has stopped its tickers, i.e. returned
 }
 
 // c18Ticker follows one ticker of the refresh goroutine: when it fires next
@@ -117,6 +118,29 @@ func (t *c18Ticker) Reset(d time.Duration) {
 	t.next = t.clk.FakeClock.Now().Add(d)
 	t.clk.mu.Unlock()
 	t.Ticker.Reset(d)
+}
+
+// Stop: the refresh goroutine stops its tickers only when it ends.
+func (t *c18Ticker) Stop() {
+	t.clk.mu.Lock()
+	t.clk.ended = true
+	t.clk.mu.Unlock()
+	t.Ticker.Stop()
+}
+
+func (c *c18Clock) goroutineEnded() bool {
+	c.mu.Lock()
+	defer c.mu.Unlock()
+	return c.ended
+}
+
+func (c *c18Clock) nextRefresh() (time.Time, bool) {
+	c.mu.Lock()
+	defer c.mu.Unlock()
+	if len(c.ticks) == 0 {
+		return time.Time{}, false
+	}
+	return c.ticks[0].next, true
 }
 
 func (c *c18Clock) NewTicker(d time.Duration) clockwork.Ticker {
@@ -175,6 +199,11 @@ type c18node struct {
 	done  chan struct{}
 	state string // running | stopped | crashed
 
+	cfg        *config.MockConfig
+	host       string
+	addrFault  bool      // the node's address-resolution inputs currently yield an error
+	faultUntil time.Time // restore them once the fake clock has reached this instant
+	goneEarly  bool      // refresh goroutine ended although Done is open (noted once)
 	doneClosed bool
 	expected   int // Publish calls the goroutine must have made
 	loopsDue   int // select (re-)entries the goroutine must have made
@@ -278,8 +307,10 @@ func (w *c18world) start(slot int) {
 	default:
 		n.clk.jitter = w.rng.Float64()
 	}
+	n.host = host
+	n.cfg = &config.MockConfig{GetPeerListenAddrVal: "0.0.0.0:8081", RedisIdentifier: host, PeerTimeout: 5 * time.Second}
 	n.p = &RedisPubsubPeers{
-		Config:     &config.MockConfig{GetPeerListenAddrVal: "0.0.0.0:8081", RedisIdentifier: host, PeerTimeout: 5 * time.Second},
+		Config:     n.cfg,
 		Metrics:    &metrics.NullMetrics{},
 		Logger:     &logger.NullLogger{},
 		PubSub:     n.ep,
@@ -342,6 +373,14 @@ func (w *c18world) settle() {
 		if n.unsynced {
 			continue
 		}
+		if !n.doneClosed && n.clk.goroutineEnded() {
+			if !n.goneEarly {
+				n.goneEarly = true
+				w.note("refresh goroutine ended although Done is open: the node will never register again", n, "")
+				w.run.Count("refresh_goroutines_ended_early", 1)
+			}
+			continue
+		}
 		if !n.doneClosed {
 			refresh, handed := n.clk.fired(now)
 			if refresh {
@@ -353,6 +392,9 @@ func (w *c18world) settle() {
 		// published AND back in its select: whatever the code does after Publish
 		// (e.g. Reset its ticker) has then happened at this instant of the fake clock
 		if !c18Poll(func() bool {
+			if !n.doneClosed && n.clk.goroutineEnded() {
+				return true
+			}
 			_, l, _ := n.clk.state()
 			return w.bus.Attempts(n.ep.idx) >= want && (n.doneClosed || l >= loops)
 		}) {
@@ -392,10 +434,49 @@ func (w *c18world) closeDone(n *c18node) {
 	if n.doneClosed {
 		return
 	}
+	w.resolvable(n) // stop() resolves the address again; a shutdown during the outage is not scripted
+	if n.clk.goroutineEnded() {
+		n.doneClosed = true
+		close(n.done)
+		return
+	}
 	n.doneClosed = true
 	n.expected++ // stop() publishes the Unregister
 	close(n.done)
 	w.settle()
+}
+
+// unresolvable makes the inputs of publicAddr (PeerListenAddr, RedisIdentifier,
+// IdentifierInterfaceName) yield an error for this node until the fake clock
+// reaches `until` -- an interface that is briefly down. The unchanged code
+// resolves its address in Start/Ready/stop only.
+func (w *c18world) unresolvable(n *c18node, until time.Time, how int) {
+	n.cfg.Mux.Lock()
+	switch how {
+	case 0: // listen address without a port
+		n.cfg.GetPeerListenAddrVal = "0.0.0.0"
+	default: // identifier taken from an interface that is gone
+		n.cfg.RedisIdentifier = ""
+		n.cfg.IdentifierInterfaceName = "verif-no-such-if0"
+	}
+	n.cfg.Mux.Unlock()
+	n.addrFault, n.faultUntil = true, until
+	w.kinds.WriteByte('A')
+	w.note("address-resolution-fails", n, fmt.Sprintf("until t=%dms", int64(until.Sub(w.t0)/time.Millisecond)))
+	w.run.Count("address_resolution_outages", 1)
+}
+
+func (w *c18world) resolvable(n *c18node) {
+	if !n.addrFault {
+		return
+	}
+	n.cfg.Mux.Lock()
+	n.cfg.GetPeerListenAddrVal = "0.0.0.0:8081"
+	n.cfg.RedisIdentifier = n.host
+	n.cfg.IdentifierInterfaceName = ""
+	n.cfg.Mux.Unlock()
+	n.addrFault = false
+	w.note("address-resolution-works-again", n, "")
 }
 
 func (w *c18world) graceful(n *c18node) {
@@ -572,7 +653,8 @@ func c18membership(run *verifkit.Run, i int, rng *verifkit.Rand) {
 		}
 	}
 	steps := rng.Range(12, 45)
-	pStart, pStop := 25, 6 // percent per step: (re)start a down slot; graceful stop; crash
+	pAddr := verifkit.Pick(rng, 0, 6, 12) // percent per step: address-resolution outage of a live node
+	pStart, pStop := 25, 6                // percent per step: (re)start a down slot; graceful stop; crash
 	if rng.Chance(0.3) {   // churny cluster
 		pStart, pStop = 20, 12
 	}
@@ -595,6 +677,20 @@ func c18membership(run *verifkit.Run, i int, rng *verifkit.Rand) {
 		case k < pStart+2*pStop+8: // hold one node's inbound messages for a while
 			if len(w.nodes) > 0 {
 				held[w.nodes[rng.Intn(len(w.nodes))].ep.idx] = st + rng.Range(2, 14)
+			}
+		case k < pStart+2*pStop+8+pAddr: // a node's own address briefly cannot be resolved
+			if l := w.live(); len(l) > 0 {
+				n := l[rng.Intn(len(l))]
+				if next, ok := n.clk.nextRefresh(); ok && !n.addrFault {
+					until := next // covers exactly the node's next registration tick
+					if rng.Chance(0.25) {
+						until = w.clock.Now().Add(time.Duration(rng.Range(100, 8000)) * time.Millisecond)
+					}
+					if !until.Before(next) {
+						w.run.Count("address_resolution_outages_covering_a_refresh_tick", 1)
+					}
+					w.unresolvable(n, until, rng.Intn(2))
+				}
 			}
 		}
 		if w.aborted {
@@ -622,6 +718,11 @@ func c18membership(run *verifkit.Run, i int, rng *verifkit.Rand) {
 			}
 		}
 		w.advance(d)
+		for _, n := range w.nodes {
+			if n.addrFault && !w.clock.Now().Before(n.faultUntil) {
+				w.resolvable(n)
+			}
+		}
 		// deliveries
 		if rng.Chance(0.8) {
 			w.bus.DeliverRandom(rng, q, dup, func(ep int) bool { return held[ep] > st })
@@ -641,6 +742,9 @@ func c18membership(run *verifkit.Run, i int, rng *verifkit.Rand) {
 
 	// --- faults stop -----------------------------------------------------------------
 	w.bus.SetFaults(false)
+	for _, n := range w.nodes {
+		w.resolvable(n)
+	}
 	w.note("faults-stop", nil, fmt.Sprintf("%d deliveries still queued, %d publish errors injected so far", w.bus.Pending(), w.bus.PublishErrors))
 	w.bus.DeliverAll(rng, dup) // the backlog arrives in any order, duplicates included
 	end := w.clock.Now().Add(PeerEntryTimeout + c18MaxRefresh)
@@ -821,7 +925,7 @@ func c18codec(run *verifkit.Run, i int, rng *verifkit.Rand) {
 func TestVerif_C18(t *testing.T) {
 	run := verifkit.Start(t, "C18", "membership")
 	defer run.Finish()
-	run.Rule("membership: seeded histories over 2..5 node addresses (IPv4 / bracketed IPv6 / host names) of real RedisPubsubPeers on one FakeClock over the E7 chaos pubsub: 12..45 steps of {start, graceful stop, crash, restart under a new instance id, hold a node's inbound messages}, per-node scripted Publish errors (probability 0/0.15/0.35/0.6 per call, plus outages of 2-4 consecutive calls) while faults are on, clock steps of 0.1..1 s (15% aimed at an entry's expiry instant +-1ns), per-step delivery of a random subset of the queued messages in random order with duplicates; refresh jitter per node chosen by the PRNG in [0,20%); then faults stop, backlog delivered in random order, clock advanced PeerEntryTimeout+max refresh interval with immediate delivery, GetPeers() of every live node compared with the live set, again at every step of a further 2x(PeerEntryTimeout+max refresh interval), then the list read by a change-callback consumer. Non-trivial = history with a graceful stop or crash and at least one out-of-order delivery; distinct = (event-kind sequence, live count, out-of-order/duplicate/late-register buckets). codec: marshal->unmarshal over generated address/id strings (realistic URLs and hex ids, empty, commas, leading R/U, control bytes, non-UTF8, long); non-trivial = a field is empty or contains a comma")
+	run.Rule("membership: seeded histories over 2..5 node addresses (IPv4 / bracketed IPv6 / host names) of real RedisPubsubPeers on one FakeClock over the E7 chaos pubsub: 12..45 steps of {start, graceful stop, crash, restart under a new instance id, hold a node's inbound messages}, address-resolution outages of a live node (its config yields an unparsable listen address / a missing interface) covering its next registration tick, per-node scripted Publish errors (probability 0/0.15/0.35/0.6 per call, plus outages of 2-4 consecutive calls) while faults are on, clock steps of 0.1..1 s (15% aimed at an entry's expiry instant +-1ns), per-step delivery of a random subset of the queued messages in random order with duplicates; refresh jitter per node chosen by the PRNG in [0,20%); then faults stop, backlog delivered in random order, clock advanced PeerEntryTimeout+max refresh interval with immediate delivery, GetPeers() of every live node compared with the live set, again at every step of a further 2x(PeerEntryTimeout+max refresh interval), then the list read by a change-callback consumer. Non-trivial = history with a graceful stop or crash and at least one out-of-order delivery; distinct = (event-kind sequence, live count, out-of-order/duplicate/late-register buckets). codec: marshal->unmarshal over generated address/id strings (realistic URLs and hex ids, empty, commas, leading R/U, control bytes, non-UTF8, long); non-trivial = a field is empty or contains a comma")
 	run.Assume("the go-redis transport is replaced by the E7 chaos pubsub (no Redis server in the sandbox); deliveries to one node are serialised")
 	run.Assume("clockwork.FakeClock is the only time source: the node's TTL map is moved onto it right after Start and the own entry re-stamped; the refresh jitter comes from the check's PRNG instead of math/rand")
 	run.Assume("live and publishing = started, Done not closed, not silenced; convergence is measured from the moment faults stop and the backlog has been delivered")
